@@ -166,7 +166,8 @@ func fieldPath(fieldDescs protoreflect.FieldDescriptors, names ...string) []prot
 }
 
 func (p *path) alive() bool {
-	return len(p.methods) != 0 ||
+	return p.methodAll != nil ||
+		len(p.methods) != 0 ||
 		len(p.variables) != 0 ||
 		len(p.segments) != 0
 }
